@@ -1515,7 +1515,8 @@ func (fr *Frame) returnAsserts(x *ssa.Return) {
 			continue // synthetic return of the recover block: not a source return statement
 		}
 		for _, ins := range b.Instrs {
-			if r, ok := ins.(*ssa.Return); ok && r != x && r.Pos() < x.Pos() {
+			// the implicit return at the end of a function body has no position: it is last
+			if r, ok := ins.(*ssa.Return); ok && r != x && retPos(r) < retPos(x) {
 				ord++
 			}
 		}
@@ -1541,4 +1542,11 @@ func (fr *Frame) returnAsserts(x *ssa.Return) {
 		fr.oblige("at.return", cs.Label, t, x.Pos(), "assertion at return: "+cs.Src)
 		fr.callOrd["fired:"+cs.Src] = 1
 	}
+}
+
+func retPos(r *ssa.Return) token.Pos {
+	if !r.Pos().IsValid() {
+		return token.Pos(1 << 40)
+	}
+	return r.Pos()
 }
